@@ -91,6 +91,7 @@ type entryReport struct {
 	Solver     string         `json:"solver"`
 	Fallback   string         `json:"fallback_solver,omitempty"`
 	Rescued    int            `json:"queries_decided_by_fallback,omitempty"`
+	Cross      int            `json:"obligations_cross_checked_z3_5_1"`
 }
 
 // ---------------------------------------------------------------------
@@ -142,6 +143,7 @@ type checker struct {
 	queries, discharged           int
 	solverS                       float64
 	stubsUsed                     map[string]string
+	crossed                       int
 }
 
 func (c *checker) run() int {
@@ -294,6 +296,12 @@ func (c *checker) runEntry(p *Program, u UnitSpec, e EntrySpec, work string) {
 		cfg.SolverTimeoutMs, _ = strconv.Atoi(v)
 	}
 	cfg.Seed = c.seed
+	// independent second opinion on a sample of the assertion obligations (z3 5.1 beside z3 4.8.12)
+	cfg.CrossSolver = "z3-new"
+	cfg.CrossEvery = 400
+	if c.tier == "thorough" {
+		cfg.CrossEvery = 100
+	}
 	if e.Replay != "engine" && e.Replay != "none" {
 		cfg.SampleModels = e.SelfCheck
 		if cfg.SampleModels == 0 {
@@ -316,6 +324,8 @@ func (c *checker) runEntry(p *Program, u UnitSpec, e EntrySpec, work string) {
 	}
 	rep.Fallback = e.Fallback
 	rep.Rescued = r.Rescued
+	rep.Cross = r.CrossChecked
+	c.crossed += r.CrossChecked
 	for k := range r.Reached {
 		rep.Reached = append(rep.Reached, k)
 	}
@@ -648,7 +658,8 @@ func (c *checker) writeEvidence(wall float64) {
 		"queries":                       c.queries,
 		"discharged_unsat":              c.discharged,
 		"solver_time_s":                 c.solverS,
-		"solvers":                       []string{"z3 4.8.12 (-in, incremental push/pop)"},
+		"solvers":                       []string{"z3 4.8.12 (-in, incremental push/pop)", "z3 5.1.0 (z3-new): a sample of the assertion obligations is re-decided, disagreement = INCONCLUSIVE", "cvc5 1.0 --solve-bv-as-int=sum as fallback where an entry says so"},
+		"obligations_cross_checked":     c.crossed,
 		"stubs":                         stubs,
 		"outside_claim":                 c.spec.OutsideClaim,
 		"inconclusive":                  c.inconclusive,
